@@ -439,7 +439,8 @@ def c17(pid, tier, replay):
 
     plan = {
         "module": "TraceConc", "cfg": "TraceConc.cfg", "own": r"^conc\.(?!readonly|hook-missing).*$", "infra": r"^conc\.hook-missing$",
-        "design": [("Registry", "Registry_locked.cfg", 900)], "jobs": [], "prepare": prepare,
+        "design": [("Registry", "Registry_locked.cfg", 900), ("RegistryProof", "RegistryProof.cfg", 900)],
+        "proofs": ["RegistryProof"], "jobs": [], "prepare": prepare,
         "replay_cmd": lambda path: ["conc-run", "--racebin", __import__("common").build_harness(race=True), "--n", "40"],
         "result_keys": (), "nontrivial": lambda e: e.get("op") == "HIST",
         "rule": "seeded concurrent histories: 2-4 goroutines x 2-4 calls each over register / unregister / lookup of reader "
